@@ -440,6 +440,9 @@ def run_C07(ctx):
     model_check(ctx, ["shutdown"] if ctx.quick else ["shutdown", "shutdown2", "big-liveness", "two-shutdowns"], agg)
     trace_check(ctx, "shutdown", 500 if ctx.quick else 6000, "shutdown", agg)
     steer_check(ctx, ["shutdown", "shutdown-early", "topics"], 150 if ctx.quick else 2500, "c07", agg)
+    # calls racing the provider's first-use initialisation: one scenario = 150 trials on fresh providers
+    if not agg.get("stop"):
+        trace_check(ctx, "firstuse", 6 if ctx.quick else 80, "firstuse", agg, chunk=20)
     joe_evidence(ctx, agg, "AllReturn (liveness, weak fairness of every process step), deadlock freedom, ShutdownValues / AtMostOneCloser by TLC; in traces AllReturned is evaluated at the end of "
                  "every scenario and a call that has not returned after 10 s in 3 of 3 runs is a violation; " + COMMON_RULE,
                  ["a timeout is a verdict only when reproduced in two fresh runs of the same scenario"])
